@@ -16,7 +16,7 @@ structure WF (s : SlowStochastic F) : Prop where
 
 /-- `new` exactly as generated: `FastStochastic::new(stochastic_period)?` is evaluated FIRST, so its
     `Err` (period 0) or its capacity-overflow panic (`stochastic_period * 8 > isize::MAX`) wins over
-    anything `ExponentialMovingAverage::new(ema_period)?` would do.  In particular
+    what `ExponentialMovingAverage::new(ema_period)?` returns (which never panics).  In particular
     `new(2^61, 0)` PANICS rather than returning `Err(InvalidParameter)`: "Err iff some period is 0"
     only holds when the first constructor does not panic (see `new_err_iff`). -/
 theorem new_eq (sp ep : Nat) :
@@ -24,15 +24,13 @@ theorem new_eq (sp ep : Nat) :
       if sp = 0 then .err .InvalidParameter
       else if ¬ sp * 8 ≤ isizeMax then .panic
       else if ep = 0 then .err .InvalidParameter
-      else if ep + 1 ≤ usizeMax then .ok (fresh sp ep) else .panic := by
+      else .ok (fresh sp ep) := by
   unfold new
   rw [FastStochastic.new_eq, ExponentialMovingAverage.new_eq]
   by_cases h0 : sp = 0
   · simp [h0, bind, Res.bind]
   · by_cases h1 : sp * 8 ≤ isizeMax
-    · by_cases h2 : ep = 0
-      · simp [h0, h1, h2, bind, Res.bind]
-      · by_cases h3 : ep + 1 ≤ usizeMax <;> simp [h0, h1, h2, h3, bind, Res.bind, fresh]
+    · by_cases h2 : ep = 0 <;> simp [h0, h1, h2, bind, Res.bind, fresh]
     · simp [h0, h1, bind, Res.bind]
 
 /-- which arguments give `Err`: a zero period, unless the stochastic window overflows first -/
@@ -43,9 +41,7 @@ theorem new_err_iff (sp ep : Nat) (e : TaError) :
   by_cases h0 : sp = 0
   · simp [h0, eq_comm]
   · by_cases h1 : sp * 8 ≤ isizeMax
-    · by_cases h2 : ep = 0
-      · simp [h0, h1, h2, eq_comm]
-      · by_cases h3 : ep + 1 ≤ usizeMax <;> simp [h0, h1, h2, h3]
+    · by_cases h2 : ep = 0 <;> simp [h0, h1, h2, eq_comm]
     · simp [h0, h1]
 
 theorem fresh_wf (sp ep : Nat) (hs : 0 < sp) (h8 : sp * 8 ≤ isizeMax) (he : 0 < ep) :
@@ -126,6 +122,6 @@ theorem display_eq (fmt : F → String) (s : SlowStochastic F) :
 theorem default_eq : (default_ : Option (SlowStochastic F)) = some (fresh 14 3) := by
   unfold default_
   rw [new_eq]
-  simp [unwrap, isizeMax, usizeMax]
+  simp [unwrap, isizeMax]
 
 end TaRs.Gen.SlowStochastic
